@@ -1,10 +1,19 @@
 #!/bin/bash
 # MANIFEST.setup_cmd: build the framework from files on disk only (offline).
-set -e
+# Every check rebuilds what it needs itself (its own harness binary from the repository's working tree,
+# its own Coq targets), so this script is a warm-up: it never fails because one property's part is broken.
 cd "$(dirname "$0")/.."
 export GOFLAGS=-mod=mod GOPROXY=off GOSUMDB=off GOTOOLCHAIN=local
-mkdir -p .scratch evidence
-./engine/gobuild.sh
-[ -x ./engine/translate.sh ] && ./engine/translate.sh || true
-./engine/coqbuild.sh
-echo "setup ok"
+mkdir -p .scratch evidence coq/Generated
+rc=0
+for d in harness/cmd/vh-*; do
+  [ -d "$d" ] || continue
+  if VERIF_HARNESS_PKG=./cmd/$(basename "$d") ./engine/gobuild.sh; then
+    VERIF_HARNESS_PKG=./cmd/$(basename "$d") ./engine/translate.sh || echo "setup: translator of $d failed"
+  else
+    echo "setup: $d does not build"; rc=1
+  fi
+done
+./engine/coqbuild.sh -k || { echo "setup: Coq development has errors (see above)"; rc=1; }
+[ $rc = 0 ] && echo "setup ok" || echo "setup finished with errors"
+exit 0
